@@ -24,6 +24,22 @@ CLAIMED = {
               "is not under contract (file system)."),
         design_ref="DESIGN.md section 5 C11, section 11",
     ),
+    "C12": dict(
+        category="proof",
+        text=("Constant.__init__ is proved to return normally if and only if compliant(type, value) holds - the oracle "
+              "transcribed from the statement (boolean for bool; integral rational within the two's complement range; "
+              "exact rational within +-largest finite IEEE 754 value; one-character ASCII string only for 8-bit unsigned, "
+              "stored as its code point) - for symbolic widths 1..64 and real-valued (not only integer) initializers, so "
+              "values arbitrarily close to every boundary are covered; the stored value is the given one. The ranges are "
+              "tied to the real inclusive_value_range bodies by finite instantiation over every width and to "
+              "FloatType.__init__'s exact magnitude table; PrimitiveType/ArithmeticType/FloatType constructors raise "
+              "iff the width is inadmissible."),
+        note=("Assumed: Attribute.__init__/check_name (names, C05) may reject independently; str.encode('utf8') "
+              "raises iff the string holds a surrogate and a single byte iff one code point < 0x80 (CPython); "
+              "Fraction is an exact rational; class invariants of the type classes; that the reader passes every "
+              "constant statement to Constant.__init__ is C03."),
+        design_ref="DESIGN.md section 5 C12, section 11",
+    ),
 }
 
 NOT_YET = "contract design exists (DESIGN.md section 5) but the machinery is not built yet"
